@@ -1,4 +1,4 @@
 From Coq Require Extraction.
 From Coq Require Import ExtrOcamlBasic.
 From AIT Require Import Base.Vio C13.Model C13.Spec.
-Extraction "model.ml" vio_kit ve ve_graph make_graph heur_order is_perm_of_seq payoff inrb all_actions is_upper exact_check approx_check opt compat ls_make ls_update evaluate_graph move mo_payoff strictly_dominates sqrt_sum_le ucve ucve_trace.
+Extraction "model.ml" vio_kit ve ve_graph make_graph heur_order is_perm_of_seq payoff inrb all_actions is_upper exact_check approx_check opt compat ls_make ls_update evaluate_graph move mo_payoff strictly_dominates sqrt_sum_le ucve ucve_trace pdec psize.
